@@ -1,13 +1,12 @@
 """C12, id/time conversion half (slice `tmap`): jls_tmap_* of /repo/src/tmap.c.
 
-Proof: coq/Properties_C12_tmap.v (anchors exact, monotone, linear interpolation / nearest-segment
-extrapolation within half a tick, inverse within one sample, junk independence of the binary
-search, the x[length] over-read).
+Proof: coq/Properties_C12_tmap.v (no read outside the entries and no fault but int64 overflow for every map and query;
+anchors exact, monotone, linear interpolation / nearest-segment extrapolation within half a tick, inverse within one
+sample; documentation of the two repaired defects on the old-code model).
 Correspondence: extracted TmapModel vs jls_tmap_add / jls_tmap_sample_id_to_timestamp /
-jls_tmap_timestamp_to_sample_id (ASan+UBSan build, forked child per case; plain build with
-the unchecked model), plus the property's executable statement evaluated directly on the
-implementation's outputs with exact rationals (Fractions), plus a binary64 re-evaluation of the modelled
-expression (python floats) that must equal the implementation bit for bit.
+jls_tmap_timestamp_to_sample_id (ASan+UBSan build and plain build, forked child per case), plus the property's
+executable statement evaluated directly on the implementation's outputs with exact rationals (Fractions), plus a
+binary64 re-evaluation of the modelled expression (python floats) that must equal the implementation bit for bit.
 
 run_tmap(ctx) is called by tools/props/C12.py."""
 import math
@@ -19,10 +18,11 @@ SIG_OOB = "tmap-search-reads-x-length"
 SIG_EQT = "tmap-equal-times-nan-cast"
 SECOND = 1 << 30
 I64MIN, I64MAX = -(1 << 63), (1 << 63) - 1
-# JLS_TMAP_MODEL=fixed: compare against the model of the minimally repaired code (TmapModel.tmap_*_fixed, proved
-# equal to the present code's model wherever that is defined: C12_tmap_fixed_eq); for validating a fix: commit
+# Default: the model of the current code.  JLS_TMAP_MODEL=old compares against the model of the code before the
+# two repairs (TmapModel.*_old: over-read of x[length], 0/0 on equal UTC times) - only useful with JLS_REPO
+# pointing at a checkout older than /repo commit 4ae268d; it reproduces the two fixed defects (signatures below).
 import os
-MODEL_FIXED = os.environ.get("JLS_TMAP_MODEL", "") == "fixed"
+MODEL_OLD = os.environ.get("JLS_TMAP_MODEL", "") == "old"
 COUNTS = (1, 2, 3, 10, 999, 1000, 1001, 2000, 2500)
 
 
@@ -420,7 +420,7 @@ def check_case(ctx, case, variant, line, mres, cres, qmeta, stats, phase):
         if stats["viol"][kind] > 3:
             return
         name = "tmap_%s_%s_%d.txt" % (kind, variant, stats["viol"][kind])
-        marg = "fixed" if MODEL_FIXED else ("asan" if variant == "asan" else "plain")
+        marg = ("old-asan" if variant == "asan" else "old-plain") if MODEL_OLD else ""
         txt = ("property C12 (tmap): %s\nbuild=%s tag=%s entries=%d rate=%s\nline=%s\nimplementation=%s\nmodel=%s\n"
                "replay: echo '%s' | JLS_TMAP_STDERR=1 %s/%s/jlsrun tmap\n"
                "model:  echo '%s' | %s/jlsmodel tmap %s\n" % (what, variant, case.tag, n, case.rate, line, cres, mres, line, vlib.BUILD, variant, line, vlib.BUILD, marg))
@@ -458,7 +458,7 @@ def check_case(ctx, case, variant, line, mres, cres, qmeta, stats, phase):
         rc, cv = couts[qi]
         mm = mouts[qi] if qi < len(mouts) else None
         # time -> id over a map with equal consecutive times is the separate defect class SIG_EQT
-        cur["sig"] = SIG_EQT if (d == "t" and not strict_t) else None
+        cur["sig"] = SIG_EQT if (MODEL_OLD and d == "t" and not strict_t) else None
         key = (variant, phase, case.tag, n, case.rnum, case.rsh, d, cls, q if n <= 3 else None, qi if n > 3 else None, case.sections[0][2] if case.sections and case.sections[0][0] == "G" else None)
         nontrivial = n >= 1
         ctx.count(key, nontrivial=nontrivial,
@@ -477,6 +477,8 @@ def check_case(ctx, case, variant, line, mres, cres, qmeta, stats, phase):
             # says Fault FP_invalid (undefined behaviour) for a zero-width segment, which any C outcome is consistent
             # with; the property still demands a result between the anchors around the query time
             stats["eqt"] += 1
+            if mm is not None and mm[1] is not None and abs(cv - mm[1]) > 1:
+                viol("model", "model %s and implementation %s differ by more than 1 at %s%s (%s, map with equal consecutive times)" % (hx(mm[1]), hx(cv), d, hx(q), cls))
             before = [case.x[i] for i in range(n) if case.y[i] < q]
             after = [case.x[i] for i in range(n) if case.y[i] > q]
             if before and after and not (before[-1] <= cv <= after[0]):
@@ -557,9 +559,9 @@ def compress(v):
 def run_pass(ctx, cases, lines, metas, stats, phase, variants):
     results = {}
     for variant in variants:
-        marg = ["asan"] if variant == "asan" else ["plain", "-5a5a5a5a"]
-        if MODEL_FIXED:
-            marg = ["fixed"]
+        marg = []
+        if MODEL_OLD:
+            marg = ["old-asan"] if variant == "asan" else ["old-plain", "-5a5a5a5a"]
         model = vlib.run_model("tmap", lines, args=marg)
         impl = vlib.run_c(variant, "tmap", lines)
         out = []
@@ -648,5 +650,8 @@ def replay(ctx, path):
     vlib.build(ctx, PROP_FILES, variants=("plain", "asan"))
     for variant in ("asan", "plain"):
         print("implementation(%s):" % variant, vlib.run_c(variant, "tmap", [line], shards=1))
-        print("model(%s):" % variant, vlib.run_model("tmap", [line], args=["asan" if variant == "asan" else "plain"], shards=1))
+        marg = []
+        if MODEL_OLD:
+            marg = ["old-asan"] if variant == "asan" else ["old-plain"]
+        print("model(%s):" % variant, vlib.run_model("tmap", [line], args=marg, shards=1))
     return 1
